@@ -266,6 +266,7 @@ class Ctx:
         self.nloops = 0
         self.defstack = [defcls]   # class whose method body is being read (for super())
         self.retk = []          # continuations of inlined methods
+        self.inlining = []      # (class, method) being inlined
 
     def fresh(self, stem):
         stem = "".join(c if c.isalnum() or c == "_" else "_" for c in stem).strip("_") or "t"
@@ -1070,10 +1071,8 @@ class Translator:
             self.fail(node, f"{fn.name}() called with {len(args)} arguments, it has {len(a.args) - 1} parameters")
         if fn.decorator_list:
             self.fail(fn, f"decorated method {defcls}.{fn.name}")
-        if (defcls, fn.name) in self.ctx.inlining if hasattr(self.ctx, "inlining") else False:
+        if (defcls, fn.name) in self.ctx.inlining:
             self.fail(node, f"recursion through {defcls}.{fn.name}")
-        if not hasattr(self.ctx, "inlining"):
-            self.ctx.inlining = []
         for n in ast.walk(fn):
             if isinstance(n, (ast.FunctionDef, ast.AsyncFunctionDef, ast.Lambda, ast.ClassDef)) and n is not fn:
                 self.fail(n, "nested function / class / lambda")
@@ -1284,10 +1283,8 @@ class Translator:
                 v, ft, ff = self.pure_cond(x, cur)
                 gained = set(ft if is_and else ff)
                 if v.const is not None and v.const != is_and:
-                    if acc is None:
-                        return V("B", const=v.const), set(), set()
-                    # decided only after the dynamic operands before it: keep them (they are pure)
-                    return (V("B", const=v.const), set(), set())
+                    # False in `and` / True in `or` decides; the operands before it are pure
+                    return V("B", const=v.const), set(), set()
                 facts |= gained
                 cur = cur.plus(gained)
                 if v.const is None:
@@ -1679,7 +1676,7 @@ class Translator:
                 continue
             if v.ty not in ("F", "Z", "B"):
                 self.fail(s, f"local `{nme}` of kind {v.ty} live across a loop")
-            if kind == "while" or nme not in assigned or True:
+            if True:
                 nm = v.tx if (v.const is None and re.fullmatch(r"[A-Za-z_][A-Za-z0-9_']*", v.tx)
                               and v.tx not in [p[0] for p in params]) else ctx.fresh(nme)
                 params.append((nm, GTYPE[v.ty]))
